@@ -11,12 +11,38 @@ CVC5_TIMEOUT_S = int(os.environ.get("PYVC_CVC5_S", "20"))
 CVC5 = "/usr/bin/cvc5"
 
 
-def to_smt2(ob):
+def to_smt2(ob, goal=None, extra=()):
     s = z3.Solver()
     for h in ob.hyps:
         s.add(h)
-    s.add(z3.Not(ob.goal))
+    for h in extra:
+        s.add(h)
+    s.add(z3.Not(ob.goal if goal is None else goal))
     return s.to_smt2()
+
+
+def split_goal(g, depth=0):
+    """[(extra hypotheses, subgoal)]: conjunctions are proved conjunct by conjunct (much easier for the solver)"""
+    if depth > 3:
+        return [((), g)]
+    if z3.is_and(g):
+        # conjunct i is proved under conjuncts 1..i-1 (sound: A and B  <=>  A and (A -> B))
+        out = []
+        before = ()
+        for c in g.children():
+            out += [(before + ex, sg) for ex, sg in split_goal(c, depth + 1)]
+            before = before + (c,)
+        return out
+    if z3.is_implies(g):
+        a, b = g.children()
+        return [((a,) + ex, sg) for ex, sg in split_goal(b, depth + 1)]
+    if z3.is_or(g) and len(g.children()) == 2:
+        a, b = g.children()
+        if z3.is_not(a) and z3.is_and(b):
+            return [((a.children()[0],) + ex, sg) for ex, sg in split_goal(b, depth + 1)]
+        if z3.is_not(b) and z3.is_and(a):
+            return [((b.children()[0],) + ex, sg) for ex, sg in split_goal(a, depth + 1)]
+    return [((), g)]
 
 
 def _solve(job):
@@ -81,6 +107,61 @@ def _solve(job):
     return out
 
 
+def _worker(job, conn):
+    try:
+        conn.send(_solve(job))
+    except Exception as e:      # noqa
+        conn.send({"name": job[0], "backend": "z3", "result": "unknown", "detail": "worker error %r" % (e,),
+                   "seconds": 0.0})
+    finally:
+        conn.close()
+
+
+def _run_jobs(jobs, procs, hard_s):
+    """one process per job, at most `procs` at a time, each killed after hard_s seconds of wall time
+    (z3's own timeout is not always honoured inside quantifier instantiation)"""
+    ctx = mp.get_context("fork")
+    pending = list(jobs)
+    running = []
+    results = []
+    while pending or running:
+        while pending and len(running) < procs:
+            job = pending.pop(0)
+            parent, child = ctx.Pipe(duplex=False)
+            p = ctx.Process(target=_worker, args=(job, child))
+            p.start()
+            child.close()
+            running.append((p, parent, job, time.time()))
+        still = []
+        for p, conn, job, t0 in running:
+            if conn.poll(0):
+                try:
+                    results.append(conn.recv())
+                except EOFError:
+                    results.append({"name": job[0], "backend": "z3", "result": "unknown",
+                                    "detail": "worker died", "seconds": time.time() - t0})
+                p.join(1)
+                conn.close()
+            elif not p.is_alive():
+                results.append({"name": job[0], "backend": "z3", "result": "unknown", "detail": "worker died",
+                                "seconds": time.time() - t0})
+                conn.close()
+            elif time.time() - t0 > hard_s:
+                p.terminate()
+                p.join(2)
+                if p.is_alive():
+                    p.kill()
+                results.append({"name": job[0], "backend": "z3", "result": "unknown",
+                                "detail": "hard wall-clock limit %ds" % hard_s, "seconds": time.time() - t0})
+                conn.close()
+            else:
+                still.append((p, conn, job, t0))
+        running = still
+        if running:
+            time.sleep(0.01)
+    return results
+
+
 def discharge(obls, procs=None, z3_ms=None, use_cvc5=True):
     procs = procs or min(16, os.cpu_count() or 4)
     z3_ms = z3_ms or Z3_TIMEOUT_MS
@@ -89,22 +170,38 @@ def discharge(obls, procs=None, z3_ms=None, use_cvc5=True):
     for ob in obls:
         # trivial cases without a solver call
         g = z3.simplify(ob.goal)
-        if z3.is_true(g) and ob.kind != "cover":
+        if z3.is_true(g) and ob.kind not in ("cover", "cover-path"):
             ob.status, ob.backend, ob.seconds = "discharged", "simplifier", 0.0
             continue
-        jobs.append((ob.name, to_smt2(ob), z3_ms, use_cvc5, ob.kind == "cover"))
-        by_name[ob.name] = ob
+        if ob.kind in ("cover", "cover-path"):
+            jobs.append((ob.name, to_smt2(ob), z3_ms, use_cvc5, True))
+            by_name[ob.name] = (ob, 1)
+            continue
+        parts = split_goal(ob.goal)
+        for i, (extra, sg) in enumerate(parts):
+            nm = ob.name if len(parts) == 1 else "%s#%d" % (ob.name, i)
+            jobs.append((nm, to_smt2(ob, sg, extra), z3_ms, use_cvc5, False))
+            by_name[nm] = (ob, len(parts))
+        ob._parts = []
     if jobs:
-        if procs > 1 and len(jobs) > 1:
-            ctx = mp.get_context("fork")
-            with ctx.Pool(min(procs, len(jobs))) as pool:
-                results = pool.map(_solve, jobs, chunksize=1)
-        else:
-            results = [_solve(j) for j in jobs]
+        hard = (z3_ms * 2) // 1000 + CVC5_TIMEOUT_S + 10
+        results = _run_jobs(jobs, procs, hard)
         for r in results:
-            ob = by_name[r["name"]]
-            ob.backend = r["backend"]
-            ob.seconds = r["seconds"]
-            ob.detail = r["detail"]
-            ob.status = {"unsat": "discharged", "sat": "countermodel", "unknown": "unknown"}[r["result"]]
+            ob, nparts = by_name[r["name"]]
+            if nparts == 1:
+                ob.backend = r["backend"]
+                ob.seconds = r["seconds"]
+                ob.detail = r["detail"]
+                ob.status = {"unsat": "discharged", "sat": "countermodel", "unknown": "unknown"}[r["result"]]
+                continue
+            ob._parts.append(r)
+            if len(ob._parts) == nparts:
+                ob.seconds = sum(x["seconds"] for x in ob._parts)
+                bad = [x for x in ob._parts if x["result"] != "unsat"]
+                ob.backend = "+".join(sorted({x["backend"] for x in ob._parts}))
+                if not bad:
+                    ob.status, ob.detail = "discharged", "%d conjuncts" % nparts
+                else:
+                    ob.status = "countermodel" if any(x["result"] == "sat" for x in bad) else "unknown"
+                    ob.detail = "\n".join("[conjunct %s] %s" % (x["name"].rsplit("#", 1)[1], x["detail"]) for x in bad)
     return obls
